@@ -12,9 +12,10 @@ contents (any parity), all flags, all national option bits, all default regions 
 all colour-table offsets, every cell.
 
 The assembly half (packet.c) is C03's model `Ttx`; `fetch_refines_L1Spec` joins the two: whatever any
-packet history leaves in the cache, a fetch shows exactly L1Spec of the cached bytes.  What is left open
-is stated as `page_roundtrip_full` (the cached bytes are the sent bytes), covered by the network oracle of
-checks/C02.py only.
+packet history leaves in the cache, a fetch shows exactly L1Spec of the cached bytes.  That the cached bytes
+are the sent bytes (`page_roundtrip`) is proved in `Props/C02Roundtrip.lean` for one transmission of one
+magazine in parallel mode from any decoder state (`single_page_roundtrip`, `page_roundtrip_parallel`);
+`page_roundtrip_full` below (a whole chain from a fresh decoder) stays stated here as an open `def`.
 -/
 namespace Zvbi.Props.C02
 open Zvbi.Fmt Zvbi.Fmt.L1Spec Zvbi.Gen.Fmt
